@@ -79,7 +79,6 @@ impl EventGen for ReuseElement {
         let ref_id = instance_element.pop_attr("id");
         if let Some(inst_id) = reuse_element.get_attr("id") {
             instance_element.set_attr("id", &inst_id);
-            context.update_element(&reuse_element);
         }
         // the instanced element should have the same indent as the original
         // `reuse` element, as well as inherit `style` and `class` values.
@@ -104,6 +103,10 @@ impl EventGen for ReuseElement {
         reuse_element.resolve_position(context).inspect_err(|_| {
             context.pop_element();
         })?;
+        if reuse_element.has_attr("id") {
+            // only once its position is resolved may other elements refer to it
+            context.update_element(&reuse_element);
+        }
 
         // The target need not have been resolved where it stands (e.g. a template in a
         // specs block which depends on variables supplied by the reuse element); the
